@@ -90,6 +90,17 @@ def r1_coverage(ctx, res):
         for fn in fnames:
             f = ctx.repo.func('_export', fn)
             ds = _displays(f)
+            # records may be built in private helpers of the exporter (not themselves producers of another element)
+            allprod = {x for v_ in PRODUCERS.values() for x in v_}
+            seen_h, todo = set(), [(f, 0)]
+            while todo:
+                g, dp = todo.pop()
+                for call, cal in ctx.cg.callees(g):
+                    for c in cal:
+                        if c.module.short == '_export' and c.name not in allprod and c.key not in seen_h and dp < 2 and c.name.startswith('_export_'):
+                            seen_h.add(c.key)
+                            ds = ds + _displays(c)
+                            todo.append((c, dp + 1))
             cand = []
             for d, var, keys in ds:
                 mk = MARKER_KEY.get(cls)
@@ -284,11 +295,31 @@ def r3_metadata_provenance(ctx, res):
     # find_entries yields (_id, _pos, wordforms, lexid, rowid) with rowid = entries.rowid
     fe = ctx.repo.func('_queries', 'find_entries')
     key = 'find_entries-yield'
-    src = Frag(fe.node)
-    res.inst(key, fe.module.loc(fe.node), 'yield (_id, _pos, wordforms, lexid, rowid)')
-    if 'lexid, rowid, _id, _pos = cast(tuple[int, int, str, str], key)' not in src or 'yield (_id, _pos, wordforms, lexid, rowid)' not in src \
-            or 'lambda row: row[0:4]' not in src:
-        res.find(key, fe.module.loc(fe.node), 'find_entries no longer regroups its rows as (id, pos, forms, lexicon rowid, entry rowid)')
+    import re as _re
+    from ..speccheck import view
+    fv = view(ctx, '_queries', 'find_entries')
+    res.inst(key, fe.module.loc(fe.node), 'yield (id, pos, forms, lexicon rowid, entry rowid) per group of the first four columns')
+    ys = [r for r in fv.rows if r[0] == 'yield']
+    ok = len(ys) == 1 and len(ys[0][3]) == 1 and 'groupby(' in ys[0][3][0]
+    if ok:
+        m = _re.match(r'^\((.+)\[2\], (.+)\[3\], (#\d+), (.+)\[0\], (.+)\[1\]\)$', ys[0][1])
+        ok = bool(m) and len({m.group(1), m.group(2), m.group(4), m.group(5)}) == 1 \
+            and m.group(1) in ('$1[0]', 'cast(tuple[int, int, str, str], $1[0])')
+        if ok:
+            forms = [r for r in fv.rows if r[0] == 'call' and r[1] == f'{m.group(3)}.append(($2[4], $2[5], $2[6], $2[7]))']
+            ok = len(forms) == 1 and len(forms[0][3]) == 2 and forms[0][3][1] == 'for $1[1]'
+        gtext = ys[0][3][0]
+        keyed = '_1[0:4]' in gtext
+        if not keyed:
+            mk = _re.search(r'groupby\(.*, (?:key=)?(\w+)\)$', gtext)
+            if mk and mk.group(1) in fe.module.funcs:
+                kv = view(ctx, '_queries', mk.group(1))
+                p0 = kv.f.params[0] if kv.f.params else '?'
+                keyed = [r[1] for r in kv.rows if r[0] == 'return'] == [f'{p0}[0:4]']
+        ok = ok and keyed
+    if not ok:
+        res.find(key, fe.module.loc(fe.node), f'find_entries no longer regroups its rows as (id, pos, forms, lexicon rowid, entry rowid), '
+                                              f'grouped by the first four columns: {[r[1][:100] for r in ys]}')
 
 
 def _table_values(ctx, func, e):
@@ -349,6 +380,13 @@ def _rowid_column(ctx, func, e, call):
         q = it
         while isinstance(q, ast.Call) and isinstance(q.func, ast.Name) and q.func.id in ('next', 'list', 'iter') and q.args:
             q = q.args[0]
+        if isinstance(q, ast.Name):
+            # the iterable was bound to a temporary first
+            sites = [b for b in binding_sites(func.node, q.id) if b[0] == 'assign']
+            if len(sites) == 1 and len(binding_sites(func.node, q.id)) == 1:
+                q = sites[0][1]
+                while isinstance(q, ast.Call) and isinstance(q.func, ast.Name) and q.func.id in ('next', 'list', 'iter') and q.args:
+                    q = q.args[0]
         if not isinstance(q, ast.Call):
             continue
         cal = ctx.cg.resolve_call(func, q)
@@ -381,62 +419,99 @@ def r4_scoping(ctx, res):
 
 
 def r5_precheck_first(ctx, res):
-    f = ctx.repo.func('_export', 'export')
-    body = list(f.node.body)
-    if body and isinstance(body[0], ast.Expr) and isinstance(body[0].value, ast.Constant):
-        body = body[1:]
+    import re as _re
+    from ..speccheck import view
+    from .c01 import SELECT_LISTS
+    v = view(ctx, '_export', 'export')
+    f = v.f
     key = 'precheck-first'
-    res.inst(key, f.module.loc(f.node), norm(body[0]) if body else '')
-    if not body or norm(body[0]) != '_precheck(lexicons)':
-        res.find(key, f.module.loc(f.node), 'export() no longer starts with _precheck(lexicons): lexicons with clashing identifiers are '
-                                            'written into one file and cannot be re-imported faithfully')
-    src = Frag(f.node)
+    eff = [r for r in v.rows if r[0] in ('call', 'store', 'aug')]
+    first = min(eff, key=lambda r: r[4].node.lineno) if eff else None
+    res.inst(key, v.loc(), first[1][:60] if first else '')
+    if first is None or first[1] != '_precheck(lexicons)' or first[2]:
+        res.find(key, v.loc(), 'export() no longer starts with _precheck(lexicons): lexicons with clashing identifiers are '
+                               'written into one file and cannot be re-imported faithfully')
     key = 'export-writes-through-dump'
-    res.inst(key, f.module.loc(f.node), 'lmf.dump(resource, destination)')
-    if 'lmf.dump(resource, destination)' not in src or "'lexicons': [_export_lexicon(lex, _version) for lex in lexicons]" not in src:
-        res.find(key, f.module.loc(f.node), 'export() no longer builds one resource from all lexicons and writes it with lmf.dump')
-    pc = ctx.repo.func('_export', '_precheck')
+    res.inst(key, v.loc(), 'lmf.dump({lmf_version, lexicons: every lexicon exported}, destination)')
+    dumps = [r for r in v.rows if r[0] == 'call' and r[1].startswith('lmf.dump(')]
+    ok = len(dumps) == 1
+    if ok:
+        t = dumps[0][1]
+        m1 = _re.match(r"^lmf\.dump\(\{'lmf_version': version, 'lexicons': \[_export_lexicon\(_1, (.+)\) for _1 in lexicons\]\}, destination\)$", t)
+        m2 = _re.match(r"^lmf\.dump\(\{'lmf_version': version, 'lexicons': (#\d+)\}, destination\)$", t)
+        if m2:
+            ap = [r for r in v.rows if r[0] == 'call' and r[1].startswith(m2.group(1) + '.append(_export_lexicon($1, ') and r[3] == ('for lexicons',)
+                  and not {g for g in r[2]} - set(dumps[0][2])]
+            ok = len(ap) == 1
+        else:
+            ok = bool(m1)
+    if not ok:
+        res.find(key, v.loc(), f'export() no longer builds one resource from all lexicons and writes it with lmf.dump: {[r[1][:120] for r in dumps]}')
+    pv = view(ctx, '_export', '_precheck')
+    pc = pv.f
     # identifiers that take part in the clash test must be NOT NULL columns (a nullable id yields None for every lexicon
     # that omits it, and two such lexicons would "clash" on None)
-    from .c01 import SELECT_LISTS
-    for n in walk_no_nested(pc.node):
-        if isinstance(n, ast.Call) and isinstance(n.func, ast.Attribute) and n.func.attr in ('update', 'add') \
-                and norm(n.func.value) == 'idset' and n.args and isinstance(n.args[0], ast.GeneratorExp):
-            g = n.args[0]
-            q = g.generators[0].iter
-            if isinstance(q, ast.Call) and isinstance(g.elt, ast.Subscript) and isinstance(g.elt.slice, ast.Constant):
-                cal = ctx.cg.resolve_call(pc, q)
-                qn = cal[0].name if len(cal) == 1 else None
-                cols = {'find_entries': ['entries.id']}.get(qn) or SELECT_LISTS.get(qn)
-                key = f'precheck-id-column:{qn}'
-                col = cols[g.elt.slice.value] if cols and g.elt.slice.value < len(cols) else None
-                res.inst(key, pc.module.loc(n), f'{col}')
-                ok = False
-                if col and '.' in col:
-                    t, c = col.split('.', 1)
-                    sc = ctx.schema.col(t, c) if t in ctx.schema.tables else None
-                    ok = sc is not None and sc.notnull and c == 'id'
-                if not ok:
-                    res.find(key, pc.module.loc(n), f'_precheck collects `{norm(g.elt)}` of {qn} ({col}) as an identifier: that column is not a '
-                                                    f'NOT NULL id, so lexicons that simply omit it (None) are refused as having clashing identifiers')
+    for r in pv.rows:
+        m = _re.match(r'^#\d+\.(?:update|add)\(\(_1\[(\d+)\] for _1 in (\w+)\(', r[1]) if r[0] == 'call' else None
+        if not m:
+            continue
+        qn, idx = m.group(2), int(m.group(1))
+        cols = {'find_entries': ['entries.id']}.get(qn) or SELECT_LISTS.get(qn)
+        key = f'precheck-id-column:{qn}'
+        col = cols[idx] if cols and idx < len(cols) else None
+        res.inst(key, pv.loc(r[4]), f'{col}')
+        ok = False
+        if col and '.' in col:
+            t, c = col.split('.', 1)
+            sc = ctx.schema.col(t, c) if t in ctx.schema.tables else None
+            ok = sc is not None and sc.notnull and c == 'id'
+        if not ok:
+            res.find(key, pv.loc(r[4]), f'_precheck collects column {idx} of {qn} ({col}) as an identifier: that column is not a '
+                                        f'NOT NULL id, so lexicons that simply omit it (None) are refused as having clashing identifiers')
     key = 'precheck-raises'
-    res.inst(key, pc.module.loc(pc.node), 'raises wn.Error on clashing identifiers')
-    s2 = Frag(pc.node)
-    if not any(isinstance(n, ast.Raise) and 'wn.Error' in norm(n) for n in walk_no_nested(pc.node)) or 'all_ids.intersection(idset)' not in s2:
-        res.find(key, pc.module.loc(pc.node), '_precheck no longer refuses exports whose lexicons share identifiers')
+    res.inst(key, pv.loc(), 'raises wn.Error on clashing identifiers')
+    rs = [r for r in pv.rows if r[0] == 'raise' and r[1].startswith('wn.Error(')]
+    okr = len(rs) == 1 and len(rs[0][2]) == 1 and rs[0][3] == ('for lexicons',)
+    if okr:
+        g = next(iter(rs[0][2]))
+        okr = bool(_re.match(r'^(#\d+)\.intersection\((#\d+)\)$', g) or _re.match(r'^not (#\d+)\.isdisjoint\((#\d+)\)$', g))
+        acc = [r for r in pv.rows if (r[0] == 'aug' and ' |= ' in r[1]) or (r[0] == 'call' and '.update(#' in r[1])]
+        okr = okr and bool(acc)
+    if not okr:
+        res.find(key, pv.loc(), f'_precheck no longer refuses exports whose lexicons share identifiers: {[(r[1][:50], sorted(r[2])) for r in rs]}')
 
 
 def r6_proposed_ili_marker(ctx, res):
     """writer/reader agreement on proposed ILIs: the importer stores a proposed_ilis row for every synset with ili="in"
     (with or without a definition - see the binding table), so the exporter must reconstruct ili="in" from the *existence*
     of that row, not from the presence of a definition text."""
-    f = ctx.repo.func('_export', '_export_synsets')
-    assigns = [n for n in walk_no_nested(f.node) if isinstance(n, ast.Assign) and norm(n.targets[0]) == 'ili'
-               and isinstance(n.value, ast.Constant) and n.value.value == 'in']
+    from ..speccheck import view
+    v = view(ctx, '_export', '_export_synsets')
+    f = v.f
     key = 'proposed-ili-marker'
-    res.inst(key, f.module.loc(f.node), f'{len(assigns)} assignments ili = "in"')
-    if not assigns:
-        res.find(key, f.module.loc(f.node), "_export_synsets never reconstructs ili=\"in\": proposed ILIs are exported as synsets without ILI")
+    # the value stored under 'ili' in the exported synset record
+    vals = []
+    for e in v.E:
+        for node in ([e.lhs, e.rhs] if e.kind in ('store', 'call', 'new', 'return', 'yield') else []):
+            if node is None:
+                continue
+            for d in ast.walk(node):
+                if isinstance(d, ast.Dict):
+                    for k, val in zip(d.keys, d.values):
+                        if isinstance(k, ast.Constant) and k.value == 'ili':
+                            vals.append(val)
+    # ... or stored separately:  record['ili'] = ...
+    for e in v.E:
+        if e.kind == 'store' and isinstance(e.lhs, ast.Subscript) and isinstance(e.lhs.slice, ast.Constant) and e.lhs.slice.value == 'ili':
+            vals.append(e.rhs)
+    markers = []
+    for val in vals:
+        for n in ast.walk(val):
+            if isinstance(n, ast.IfExp) and isinstance(n.body, ast.Constant) and n.body.value == 'in':
+                markers.append(n.test)
+    res.inst(key, v.loc(), f'{len(vals)} ili values, {len(markers)} conditional "in" markers')
+    if not markers:
+        res.find(key, v.loc(), "_export_synsets never reconstructs ili=\"in\": proposed ILIs are exported as synsets without ILI")
         return
     # importer side: the row is inserted under Synset.ili == 'in' alone
     from .c01 import computed_bindings, ROW_GUARD
@@ -445,35 +520,29 @@ def r6_proposed_ili_marker(ctx, res):
     res.inst(key + ':importer', 'wn/_add.py', f'{sorted(guards)}')
     if not imp_ok:
         res.find(key + ':importer', 'wn/_add.py', f'the importer no longer stores a proposed_ilis row for exactly the synsets with ili="in": {sorted(guards)}')
-    for a in assigns:
-        test = None
-        for p in parents(a):
-            if isinstance(p, ast.If) and any(a is x for x in p.body):
-                test = p.test
-                break
-        k2 = f'{key}:{norm(test)[:50] if test is not None else "unguarded"}'
-        res.inst(k2, f.module.loc(a), 'guard of the marker')
-        if test is None:
-            res.find(k2, f.module.loc(a), 'ili = "in" is assigned unconditionally')
-            continue
-        row_based = False
-        defn_based = False
-        for n in ast.walk(test):
-            if isinstance(n, ast.Call):
-                if _reaches(ctx, f, n, 'find_proposed_ilis') and not _reaches(ctx, f, n, None, via='_export_ili_definition'):
-                    row_based = True
-            if isinstance(n, ast.Name):
-                for s2 in binding_sites(f.node, n.id):
-                    if s2[0] == 'assign' and isinstance(s2[1], ast.Call):
-                        if norm(s2[1].func) == '_export_ili_definition':
-                            defn_based = True
-                        elif _reaches(ctx, f, s2[1], 'find_proposed_ilis'):
-                            row_based = True
+    for test in {norm(t): t for t in markers}.values():
+        k2 = f'{key}:guard'
+        res.inst(k2, v.loc(), norm(test)[:80])
+        calls = [norm(n.func) for n in ast.walk(test) if isinstance(n, ast.Call)]
+        row_based = any(c == 'find_proposed_ilis' or _helper_reaches(ctx, f, c, 'find_proposed_ilis') for c in calls)
+        defn_based = any(c == '_export_ili_definition' for c in calls) or 'definition' in norm(test).replace('find_proposed_ilis', '')
         if defn_based or not row_based:
-            res.find(k2, f.module.loc(a),
-                     f'ili = "in" is reconstructed under `{norm(test)}`, i.e. from the presence of an ILI definition text, while the '
-                     f'importer records a proposed ILI by the existence of the proposed_ilis row (definition optional): a synset '
-                     f'<Synset ili="in"> without <ILIDefinition> is exported with ili="" and re-imported without its proposed ILI')
+            res.find(k2, v.loc(),
+                     f'ili = "in" is reconstructed under `{norm(test)[:120]}`, i.e. not from the existence of the proposed_ilis row (the '
+                     f'importer records a proposed ILI by that row; its definition is optional): a synset <Synset ili="in"> without '
+                     f'<ILIDefinition> is exported with ili="" and re-imported without its proposed ILI')
+
+
+def _helper_reaches(ctx, f, name, target, depth=0):
+    g = f.module.funcs.get(name)
+    if g is None or depth > 2 or name == '_export_ili_definition':
+        return False
+    for n in walk_no_nested(g.node):
+        if isinstance(n, ast.Call):
+            c = norm(n.func)
+            if c == target or _helper_reaches(ctx, f, c, target, depth + 1):
+                return True
+    return False
 
 
 def _reaches(ctx, f, call, target, via=None, depth=0):
@@ -505,5 +574,5 @@ RULES = [
     ('C03-R4', r4_scoping, 12),
     ('C03-R5', r5_precheck_first, 6),
     ('C03-R6', r6_proposed_ili_marker, 3),
-    ('C03-R7', r7_no_shared_records, 6),
+    ('C03-R7', r7_no_shared_records, 3),
 ]
